@@ -1034,6 +1034,23 @@ impl Case {
         if r.exit == Exit::Budget {
             return Verdict::Judged(out);
         }
+        // the whole batch process died (stack overflow abort, segmentation fault) although every
+        // file could be handled by its own invocation
+        if let Exit::Signal(sig) = r.exit {
+            let deepest = self
+                .files
+                .iter()
+                .map(|f| max_nesting(&f.bytes))
+                .max()
+                .unwrap_or(0);
+            out.push(Finding {
+                oracle: "c18.batch_killed_by_signal".into(),
+                detail: format!(
+                    "the batch process was killed by signal {sig} (6 = abort, e.g. stack overflow on a pool thread; 11 = segmentation fault) although each file is handled by its own invocation; deepest begin-nesting among the files: {deepest}"
+                ),
+            });
+            return Verdict::Judged(out);
+        }
 
         let mut any_failed = false;
         let mut expected_blocks: Vec<&[u8]> = vec![];
@@ -1141,6 +1158,22 @@ impl Case {
         }
         Verdict::Judged(out)
     }
+}
+
+/// Longest run of consecutive lines that are just `begin` (a cheap measure of block nesting).
+pub fn max_nesting(bytes: &[u8]) -> usize {
+    let mut best = 0;
+    let mut cur = 0;
+    for line in bytes.split(|b| *b == b'\n') {
+        let t: Vec<u8> = line.iter().copied().filter(|b| !b.is_ascii_whitespace() && *b != 0).collect();
+        if t.eq_ignore_ascii_case(b"begin") {
+            cur += 1;
+            best = best.max(cur);
+        } else {
+            cur = 0;
+        }
+    }
+    best
 }
 
 /// True when `got` is the concatenation, in some order, of all `required` blocks plus any
